@@ -23,7 +23,7 @@ TIMEOUT = {"quick": 300, "thorough": 1500}
 
 
 def cases(tier, seed):
-    n = 32 if tier == "quick" else 200
+    n = 32 if tier == "quick" else 600
     cs = workload.reader_population(n, seed + 300, max_levels=3)
     for i, c in enumerate(cs):
         c["sel_seed"] = seed * 13 + i
